@@ -34,6 +34,10 @@ def main():
         with open(os.path.join(d, "meta.json")) as f:
             meta = json.load(f)
         prop = meta["breaks_property"]
+        if meta.get("obsolete"):
+            res[sid] = {"property": prop, "obsolete": meta["obsolete"]}
+            print(sid, "obsolete on this base")
+            continue
         rc, out = sh("git apply %s" % os.path.join(d, "patch.diff"), cwd="/repo")
         if rc != 0:
             res[sid] = {"error": "patch does not apply: " + out[:200]}
